@@ -275,7 +275,18 @@ int main(int argc, char** argv){
             pos[i][0] = Real(cx + (rnd() - 0.5) * 0.998 * w); pos[i][1] = Real(cy + (rnd() - 0.5) * 0.998 * w); pos[i][2] = Real(cz + (rnd() - 0.5) * 0.998 * w);
             pos[i][3] = pick_charge(chargemode);
         }
-        if(place != 0){
+        if(place == 64){
+            // N <= 8 particles, one per level-2 cell of coordinates {0,2}^3 (pairwise well separated: every pair interacts through ONE
+            // level-2 M2L), each within 1e-3 of the cell centre: the truncation error is negligible, what remains is the accuracy of
+            // the translation operators themselves (M2M / M2L / L2L tables)
+            for(long i = 0 ; i < N && i < 8 ; ++i){
+                const double q[3] = { (i & 1) ? 0.625 : 0.125, (i & 2) ? 0.625 : 0.125, (i & 4) ? 0.625 : 0.125 };
+                pos[i][0] = Real(double(cx) + (q[0] - 0.5 + 2e-3 * (rnd() - 0.5)) * double(w));
+                pos[i][1] = Real(double(cy) + (q[1] - 0.5 + 2e-3 * (rnd() - 0.5)) * double(w));
+                pos[i][2] = Real(double(cz) + (q[2] - 0.5 + 2e-3 * (rnd() - 0.5)) * double(w));
+            }
+        }
+        else if(place != 0){
             // place = bitmask (1 polar axis, 2 x axis, 4 y axis, 8 exact centre, 16 face, 32 edge): a third of the particles on special positions of their leaf cell: on the axes through the cell centre (above and
             // below / left and right of it), at the centre itself (one per leaf), on a cell face, on a cell edge
             const long nl = 1L << (H - 1);
